@@ -21,6 +21,9 @@
                       size of the last index write; an undo block that is not a multiple of the channel block size
                       is read from the channel block boundary below it
      DevReopenFull    try_reopen_undo_file leaves a full key block current (the writer had already moved on)
+     DevExtendShort   a key that ends with a short block (short read at the end of the device) is extended by the next
+                      contiguous block, although every block starts on an undo block boundary in the file and e2undo reads
+                      the data of a key as one contiguous run
    The registered configuration has all of them FALSE (behaviour after the fix patches).                            *)
 EXTENDS Integers, Sequences, FiniteSets, TLC
 CONSTANTS N,               \* original device length
@@ -29,7 +32,7 @@ CONSTANTS N,               \* original device length
           KpbPerG,         \* keys per key block = tdb * KpbPerG - 1          (code: 64)
           MaxExt,          \* E2UNDO_MAX_EXTENT_BLOCKS                         (code: 512)
           MaxOps, MaxRuns, MaxSpan,
-          DevByteOffTwice, DevAbsTiling, DevChanUnits, DevReopenFull
+          DevByteOffTwice, DevAbsTiling, DevChanUnits, DevReopenFull, DevExtendShort
 VARIABLES dev, len, ch, uf, pend, nops, nruns, res, dmg
 vars == <<dev, len, ch, uf, pend, nops, nruns, res, dmg>>
 
@@ -93,6 +96,7 @@ SaveOne(c, u, d, ln, tb) ==
        target == IF DevChanUnits THEN backing ELSE P \div U
        lastk == IF c.kib > 0 THEN c.keyb[c.kib] ELSE [fsblk |-> 0, size |-> 0, crc |-> <<>>, gpos |-> 0]
        extend == /\ c.kib > 0
+                 /\ (DevExtendShort \/ lastk.size % tdb = 0)
                  /\ (lastk.fsblk * U + U - 1 + lastk.size) \div U = target
                  /\ MaxExt * tdb > lastk.size + n
        keyb1 == IF extend THEN [c.keyb EXCEPT ![c.kib] = [lastk EXCEPT !.size = lastk.size + n, !.crc = lastk.crc \o data]]
